@@ -5,7 +5,8 @@ from mc import alphabet as A
 from mc.core import Out, inner
 from mc.props import _c17_ref as T
 from mc.props._c17_util import (TOL, Chk, coeffs_fast, dist, hs_of_kraus_fast, list_dist, mat_from_coeffs_fast,
-                                ref_channel_verdict, ref_povm_verdict, ref_state_verdict, sysinfo, vec_proportional)
+                                ref_channel_verdict, ref_povm_verdict, ref_state_verdict, sysinfo, vec_proportional,
+                                second_system, check_bound_system)
 
 STATE_FORMS = ["pure_state_vector", "density_mat", "density_matrix_vector", "state"]
 
@@ -31,6 +32,12 @@ def check_state(out, name, tag):
     if not (ok1 and ok2 and ok3 and ok4):
         return
     out.count("state_generated")
+
+    def regen():
+        c2 = second_system(tag)
+        okx, S2 = A.call(st.generate_state_from_name, c2, name)
+        return okx, c2, S2
+    check_bound_system(k, "state", S, c, regen, lambda o: o.vec)
     # textbook
     k.true("vector-vs-textbook", vec_proportional(v, vref) <= TOL, "pure state vector is not the textbook vector up to a phase")
     k.close("density_mat-vs-textbook", rho, rho_ref)
@@ -93,6 +100,12 @@ def check_povm(out, name, tag):
     ok2, mats = k.must("matrices", pt.generate_povm_matrices_from_name, name)
     ok3, vecs = k.must("vectors", pt.generate_povm_vectors_from_name, name, c.basis())
     ok4, P = k.must("povm", pt.generate_povm_from_name, name, c)
+    if ok4:
+        def regen():
+            c2 = second_system(tag)
+            okx, P2 = A.call(pt.generate_povm_from_name, name, c2)
+            return okx, c2, P2
+        check_bound_system(k, "povm", P, c, regen, lambda o: np.array(o.vecs))
     # pure state vectors exist exactly for rank-1 POVMs
     okv, vs = A.call(pt.generate_povm_pure_state_vectors_from_name, name)
     out.ops += 1
@@ -193,6 +206,12 @@ def ex_mprocess(p, seed):
         elif not isinstance(vs, ValueError):
             out.fail("mprocess_typical:%s:set_pure_state_vectors:wrong-error:%s" % (name, type(vs).__name__), A.fmt_exc(vs))
     okm, mp = k.must("mprocess", mt.generate_mprocess_from_name, c, name)
+    if okm:
+        def regen():
+            c2 = second_system(tag)
+            okx, m2 = A.call(mt.generate_mprocess_from_name, c2, name)
+            return okx, c2, m2
+        check_bound_system(k, "mprocess", mp, c, regen, lambda o: np.array(o.hss))
     hss = None
     if "hss" in forms:
         okh, hss = k.must("hss", mt.generate_mprocess_hss_from_name, name, c)
